@@ -125,7 +125,7 @@ def expectedShapes : List (String × Option Int × Bool) := [
   ("io.json.JsonView.__iter__", some 0, false),
   ("io.json.DictsGeneratorView.__iter__", some 0, false),
   ("io.json.iterjlines", some 0, false),
-  ("io.json.iterdicts", some 0, false),
+  ("io.json.iterdicts", none, true),
   ("io.pickle.PickleView.__iter__", some 0, false),
   ("io.pickle.TeePickleView.__iter__", some 1, false),
   ("io.text.TextView.__iter__", some 0, false),
